@@ -10,8 +10,9 @@ from .core import run_property
 G2_, G3_ = (2, 1, 2), (3, 1, 2)
 
 
-def _step(prop, tier, seed, actions, extra_assume=(), base=(), seg=()):
-    runs = R.step_runs(prop, tier, actions) + R.base_runs(prop, tier, base) + R.seg_runs(prop, tier, list(seg))
+def _step(prop, tier, seed, actions, extra_assume=(), base=(), seg=(), extra_runs=()):
+    runs = (list(extra_runs) + R.step_runs(prop, tier, actions) + R.base_runs(prop, tier, base)
+            + R.seg_runs(prop, tier, list(seg)))
     return run_property(prop, tier, runs, explanation=R.EXPL,
                         assumptions=R.STEP_ASSUME + list(extra_assume) + (R.SEG_ASSUME if seg else []), seed=seed,
                         stubs=R.SEG_STUBS if seg else ["networkx.DiGraph -> SymDiGraph",
@@ -75,7 +76,15 @@ def C01(tier, seed):
                ("paint", 2, (2, 1, 1, 2), {}), ("UserDeleteNode", 3, G3_, {"iou": True, "all_rp": True}),
                ("UserAddNode", 3, G2_, {"iou": True}), ("UserAddEdge", 4, G3_, {"iou": True}),
                ("UserSwapPredecessors", 4, G3_, {"iou": True})]
-    return _step("C01", tier, seed, R.USER + R.PRIMS, seg=seg, extra_assume=[
+    from harness import step, step_replay
+    from .core import Run
+
+    n = 3 if tier == "quick" else 4
+    extra = [Run(f"step:{a}:N={n}:per_axis_position", step.harness,
+                 dict(N=n, action=a, props=["C01"], multi_pos=True), step_replay.replay, ("accepted",),
+                 f"{n} node slots, position stored per axis (pos_attr=['y','x'])")
+             for a in ("UserAddNode", "UserDeleteNode", "AddNode", "DeleteNode")]
+    return _step("C01", tier, seed, R.USER + R.PRIMS, seg=seg, extra_runs=extra, extra_assume=[
         "primitive preconditions as documented: AddNode adds a new node, DeleteNode has no incident edges, "
         "UpdateTrackIDs does not reuse a tracklet id present in the start node's component"])
 
